@@ -22,7 +22,7 @@ STACKS = ['IPv6-UDP-CoAP', 'IPv4-UDP-CoAP', 'UDP', 'CoAP', 'SCTP', 'IPv6', 'IPv4
 def run(rep, tier, seed):
     rnd = rng_for(seed, 'C01')
     b = Batch(rep)
-    n = 180 if tier == 'quick' else 2200
+    n = 450 if tier == 'quick' else 4000
     for i in range(n):
         stack, pkt, st, pd = gen_parsed(rnd, STACKS[i % len(STACKS)])
         orig = b2s(pkt)
